@@ -129,7 +129,7 @@ struct EdgeOut {
   LD lenscale = 1;                   // max(1, length / half circuit)
   LD cond = 1;                       // conditioning of the area of an inverse edge: an end-point error d sweeps d R tan(sigma12/2)
   LD extra_tol = 0;                  // additional absolute position tolerance of this edge (metres, before K): rhumb round-off term
-  bool certified = false, seeded = false, pole = false, scanned = false, tie = false, rheq = false, preq = false;   // preq: signature of the GeodesicExact near-equatorial inverse defect on strongly prolate ellipsoids   // tie: the longitudes differ by exactly 180 deg
+  bool certified = false, seeded = false, pole = false, scanned = false, tie = false, rheq = false, rhtiny = false, preq = false;   // preq: signature of the GeodesicExact near-equatorial inverse defect on strongly prolate ellipsoids   // tie: the longitudes differ by exactly 180 deg
   LD azi1 = 0, a12 = 0;              // a12: arc on the auxiliary sphere (deg; geodesic edges between vertices only)
 };
 
@@ -156,7 +156,7 @@ inline EdgeOut geod_edge_between(const Env& env, Ctx& c, const RV& A, const RV& 
     o.lenscale = std::max<LD>(1, o.len / env.half_circ); o.st = E_OK; return o;
   }
   if (A.lat == B.lat && lon12 == 0) { o.st = E_OK; o.certified = true; return o; }
-  o.preq = env.f < -0.2 && std::max(std::fabs(A.lat), std::fabs(B.lat)) < 1e-8 && !(A.lat == 0 && B.lat == 0);
+  o.preq = (env.f < -0.2 || env.f > 0.5) && std::max(std::fabs(A.lat), std::fabs(B.lat)) < 1e-8 && !(A.lat == 0 && B.lat == 0);
   // seeds: library GeodesicExact (hint only; every candidate is verified by the reference direct solution)
   double s12, azi1, azi2, m12, M12, M21, S12;
   double a12 = env.S->exact->GenInverse(A.lat, A.lon, B.lat, B.lon, GeodesicExact::DISTANCE | GeodesicExact::AZIMUTH, s12, azi1, azi2, m12, M12, M21, S12);
@@ -188,7 +188,9 @@ inline EdgeOut geod_edge_between(const Env& env, Ctx& c, const RV& A, const RV& 
     }
     if (best.s12 < (LD)s12 - margin) ++c.events["ref: reference found a joining geodesic shorter than the library's (C02 territory)"];
     o.seeded = true; ++c.events["ref: edges longer than the injectivity radius (shortest among verified candidates)"];
-    if (scan_prob > 0 && c.rng.coin(scan_prob)) {
+    // the global scan is run on a sample, and always when the library claims a shorter joining geodesic than every verified candidate
+    bool lib_shorter = std::isfinite(s12) && (LD)s12 < best.s12 - margin;
+    if (lib_shorter || (scan_prob > 0 && c.rng.coin(scan_prob))) {
       // global certificate on a sample: scan the azimuth circle for any shorter joining geodesic
       ref::InvScan<LD> R = ref::ref_inverse_scan<LD>(env.a, env.f, A.lat, B.lat, (__float128)lon12, (double)(best.s12 * (1 + (LD)1e-9)), 720);
       ++c.events["ref: global-scan certificates run"]; o.scanned = true;
@@ -240,11 +242,11 @@ inline EdgeOut rhumb_edge_between(const Env& env, Ctx& c, const RV& A, const RV&
   o.pole = pA || pB; o.tie = tie;
   // regime of a known defect (Rhumb exact=true on a prolate ellipsoid, C09 'DE cancellation'): for latitudes on the same side of the equator
   // the rectifying divided difference loses relative accuracy eps/|beta_min|; the edge is in the regime when that predicted error
-  // eps * length / |beta_min| is not negligible (> 1/4) against the tolerance the edge is judged with (always when a latitude is 0)
+  // eps * length / |beta_min| is not negligible (> 1/20) against the tolerance the edge is judged with (always when a latitude is 0)
   auto in_rheq = [&env](double la1, double la2, LD len, LD tol_edge) {
     if (!(env.be == B_RH_EXACT && env.f < 0) || la1 == la2 || la1 * la2 < 0) return false;
     double bmin = std::min(std::fabs(la1), std::fabs(la2)) * (M_PI / 180);
-    return bmin == 0 || (double)len * std::numeric_limits<double>::epsilon() / bmin > 0.25 * env.K * (double)tol_edge; };
+    return bmin == 0 || (double)len * std::numeric_limits<double>::epsilon() / bmin > 0.05 * env.K * (double)tol_edge; };
   if (pA && pB && A.lat != B.lat) { o.st = E_AMBIG; o.why = "pole-to-opposite-pole"; return o; }
   if ((tie || r.tie) && !(pA || pB) ) { o.st = E_AMBIG; o.why = "opposite meridians: east/west rhumb lines equally long"; ++c.events["ref: edges excluded as nearly antipodal / not unique"]; return o; }
   // near-tie: |lon12| within the resolution at which AngDiff could legitimately round to +-180
@@ -253,6 +255,7 @@ inline EdgeOut rhumb_edge_between(const Env& env, Ctx& c, const RV& A, const RV&
   o.lenscale = std::max<LD>(1, o.len / env.half_circ);
   o.extra_tol = 8 * std::numeric_limits<double>::epsilon() * std::max<LD>(o.len, (LD)env.a * fabsl(o.dlam));
   o.rheq = in_rheq(A.lat, B.lat, o.len, (LD)env.tol_pos * o.lenscale + o.extra_tol);
+  o.rhtiny = env.be == B_RH_EXACT && ((A.lat != 0 && std::fabs(A.lat) < 1e-290) || (B.lat != 0 && std::fabs(B.lat) < 1e-290));
   if (!(std::isfinite((double)o.I) && std::isfinite((double)o.len))) { o.st = E_FAIL; o.why = "rhumb reference non-finite"; return o; }
   o.st = E_OK; return o;
 }
@@ -269,10 +272,11 @@ inline EdgeOut rhumb_edge_direct(const Env& env, Ctx& c, const RV& A, double azi
   o.I = -r.S12 / env.E.c2; o.dlam = r.lon12 * D; o.len = fabsl((LD)s);
   o.extra_tol = 8 * std::numeric_limits<double>::epsilon() * std::max<LD>(o.len, (LD)env.a * fabsl(o.dlam));
   o.lenscale = std::max<LD>(1, o.len / env.half_circ);
+  o.rhtiny = env.be == B_RH_EXACT && A.lat != 0 && std::fabs(A.lat) < 1e-290;
   { // same regime predicate as for inverse edges, with the reference end latitude (and the stored one): also east-west courses (lat2 == lat1 up to the defect)
     double la2 = (double)r.lat2; LD tol_edge = (LD)env.tol_pos * o.lenscale + o.extra_tol;
     bool same = A.lat * la2 >= 0; double bmin = std::min(std::fabs(A.lat), std::fabs(la2)) * (M_PI / 180);
-    o.rheq = env.be == B_RH_EXACT && env.f < 0 && same && s != 0 && (bmin == 0 ? A.lat != 0 || la2 != 0 : (double)o.len * std::numeric_limits<double>::epsilon() / bmin > 0.25 * env.K * (double)tol_edge); }
+    o.rheq = env.be == B_RH_EXACT && env.f < 0 && same && s != 0 && (bmin == 0 ? A.lat != 0 || la2 != 0 : (double)o.len * std::numeric_limits<double>::epsilon() / bmin > 0.05 * env.K * (double)tol_edge); }
   if (Bstored) {
     LD X1[3], X2[3]; ref::to_xyz<LD>(env.E, (LD)Bstored->lat, (LD)Bstored->lon, X1); ref::to_xyz<LD>(env.E, r.lat2, r.lon2, X2);
     if (pos_err) *pos_err = ref::dist3(X1, X2);
@@ -291,14 +295,14 @@ struct Model {
   LD tolA = 0, tolP = 0;                        // accumulated tolerances (m^2, m), before K
   LD maxcond = 1;                               // largest conditioning factor of an edge of the chain
   bool judged = true; std::string why;          // false once an edge is ambiguous / the reference failed
-  int nseeded = 0, nwrap = 0, npole = 0, nzero = 0, ntie = 0, nrheq = 0, npreq = 0;     // nrheq: edges with the signature of the Rhumb(exact, prolate) near-equator distance defect
+  int nseeded = 0, nwrap = 0, npole = 0, nzero = 0, ntie = 0, nrheq = 0, npreq = 0, nrhtiny = 0;     // nrheq: edges with the signature of the Rhumb(exact, prolate) near-equator distance defect
   void clear() { *this = Model(); }
   void add(const Env& env, const EdgeOut& e) {
     if (e.st != E_OK) { if (judged) { judged = false; why = e.why; } return; }
     I += e.I; dlam += e.dlam; len += e.len; absI += fabsl(e.I);
     tolA += ((LD)env.tol_pos * e.lenscale + e.extra_tol) * env.cauth * e.cond; tolP += (LD)env.tol_pos * e.lenscale + e.extra_tol;
     if (e.cond > maxcond) maxcond = e.cond;
-    if (e.tie) ++ntie; if (e.rheq) ++nrheq; if (e.preq) ++npreq; if (e.seeded) ++nseeded; if (e.lenscale > 2) ++nwrap; if (e.pole) ++npole; if (e.len == 0) ++nzero;
+    if (e.tie) ++ntie; if (e.rheq) ++nrheq; if (e.rhtiny) ++nrhtiny; if (e.preq) ++npreq; if (e.seeded) ++nseeded; if (e.lenscale > 2) ++nwrap; if (e.pole) ++npole; if (e.len == 0) ++nzero;
   }
 };
 
